@@ -712,11 +712,40 @@ class Exec(Sym):
     update locals are merged into ("if", c, a, b) / ("match", scrut, arms) terms.
     Strings built by `String::new` + push/push_str become ("str", part, part, ...)."""
 
-    def __init__(self, fn_hir, facts=None, depth=14):
+    def __init__(self, fn_hir, facts=None, depth=14, tolerant=False):
+        """tolerant=True: a loop does not abort the summary; what it assigns becomes unknown and a string it appends to gets
+        one opaque chunk ("s", ("opaque", "loop")) - for summaries whose interesting part lies outside the loops."""
         super().__init__(Env(fn_hir, facts), facts, depth)
         self.fn_hir = fn_hir
         self.store = {}
         self.returns = []
+        self.tolerant = tolerant
+
+    def havoc_loop(self, loop):
+        pushed = []
+        for n, _ in walk(loop):
+            k = n.get("k")
+            if k == "MethodCall" and (callee_of(n) or "").endswith(("String::push", "String::push_str")):
+                lid = self.local_id(n["recv"])
+                if lid is not None and lid not in pushed:
+                    pushed.append(lid)
+            elif k in ("Assign", "AssignOp"):
+                lid = self.local_id(n["l"])
+                if lid is not None:
+                    nm = strip(n["l"])["to"]["name"]
+                    self.store[lid] = ("var", nm)
+                else:
+                    fk = self.field_key(n["l"], 0)
+                    if fk is not None:
+                        self.store[fk] = ("var", "?%s" % fk[2])
+            elif k == "Ret" and not any(True for _ in ()):
+                pass
+        for lid in pushed:
+            cur = self.store.get(lid, ("str",))
+            try:
+                self.store[lid] = str_append(cur, ("s", ("opaque", "loop")))
+            except Unsupported:
+                self.store[lid] = ("var", "?")
 
     def sym(self, n, d=0):
         if n is None:
@@ -764,6 +793,9 @@ class Exec(Sym):
             return self.block(e0, d)
         if k == "MethodCall" and (callee_of(e0) or "").endswith(("String::push", "String::push_str")):
             self.stmt(e0, d)
+            return ("unit",)
+        if k == "Loop" and self.tolerant:
+            self.havoc_loop(e0)
             return ("unit",)
         return self.sym(e0, d)
 
@@ -846,7 +878,9 @@ class Exec(Sym):
         elif k in ("Ret",):
             raise Unsupported("early return")
         elif k in ("Loop",):
-            raise Unsupported("loop")
+            if not self.tolerant:
+                raise Unsupported("loop")
+            self.havoc_loop(st0)
         else:
             pass
 
@@ -1091,6 +1125,8 @@ def fold(t, assume, discr=None, helpers=None):
                 if a[0] in ("variant", "lit") and b[0] == a[0]:
                     eq = a[1] == b[1]
                     return ("lit", eq if op == "==" else not eq)
+                if _ground(a) and _ground(b):
+                    return ("lit", (a == b) if op == "==" else (a != b))
             if a[0] == "lit" and b[0] == "lit":
                 x, y = a[1], b[1]
                 try:
@@ -1150,24 +1186,31 @@ def fold(t, assume, discr=None, helpers=None):
             sc = f(t[1])
             if sc[0] in ("variant", "lit", "struct", "ctor"):
                 key = sc[1] if sc[0] != "struct" else sc[1]
-                for (pk_, g, body) in t[2]:
+                arms_ = list(t[2])
+                for i_, (pk_, g, body) in enumerate(arms_):
+                    if not _pat_matches(pk_, sc):
+                        continue
+                    binds = getattr(pk_, "binds", None)
+                    m_ = {}
+                    if sc[0] == "ctor" and isinstance(binds, tuple) and len(binds) == len(sc[2]):
+                        m_ = {("var", nm): v for nm, v in zip(binds, sc[2]) if nm}
                     if g is not None:
-                        gg = f(g)
+                        gg = f(subst(g, m_) if m_ else g)
                         if gg == ("lit", False):
                             continue
                         if gg != ("lit", True):
-                            return ("match", sc, tuple((p, g_, f(b_)) for p, g_, b_ in t[2]))
-                    if _pat_matches(pk_, sc):
-                        binds = getattr(pk_, "binds", None)
-                        if sc[0] == "ctor" and isinstance(binds, tuple) and len(binds) == len(sc[2]):
-                            m_ = {("var", nm): v for nm, v in zip(binds, sc[2]) if nm}
-                            if m_:
-                                return f(subst(body, m_))
-                        return f(body)
+                            # undecided guard: this arm if it holds, otherwise whatever the remaining arms give
+                            rest_ = f(("match", sc, tuple(arms_[i_ + 1:]))) if arms_[i_ + 1:] else ("nomatch", sc)
+                            return ("if", gg, f(subst(body, m_) if m_ else body), rest_)
+                    return f(subst(body, m_) if m_ else body)
                 return ("nomatch", sc)
             return ("match", sc, tuple((p, g, f(b)) for p, g, b in t[2]))
         if h == "call":
             args = tuple(f(x) for x in t[2])
+            if isinstance(t[1], tuple) and len(t[1]) == 2 and t[1][0] == "?" and isinstance(t[1][1], tuple) and t[1][1][:1] == ("closure",) \
+                    and len(t[1][1][1]) == len(args):
+                # call of a local closure: beta-reduce
+                return f(subst(t[1][1][2], {("var", nm): x for nm, x in zip(t[1][1][1], args)}))
             if helpers and isinstance(t[1], str) and t[1] in helpers and len(args) == 1:
                 pname, body = helpers[t[1]]
                 return f(subst(body, {("var", pname): args[0]}))
@@ -1256,6 +1299,22 @@ def fold(t, assume, discr=None, helpers=None):
     # an early `return x` anywhere in the evaluated term makes the whole function return x
     er = _find_ret(r)
     return er if er is not None else r
+
+
+def _ground(t):
+    """literal data only (no variables, calls, fields): structural equality decides `==`"""
+    if not isinstance(t, tuple) or not t:
+        return True
+    h = t[0]
+    if h in ("lit", "variant", "pos"):
+        return True
+    if h in ("ctor",):
+        return all(_ground(x) for x in t[2])
+    if h == "struct":
+        return all(_ground(v) for _, v in t[2])
+    if h == "tup":
+        return all(_ground(x) for x in t[1:])
+    return False
 
 
 def _find_ret(t):
